@@ -5,7 +5,7 @@
    state, so they hold along every history. *)
 From Coq Require Import List NArith Bool.
 From FV Require Fetch.Fetch Fetch.FetchOrder.
-From FV Require Import Hybrid.Engine Hybrid.EngineInv Hybrid.EngineThms.
+From FV Require Import Hybrid.Engine Hybrid.EngineInv Hybrid.EngineThms Hybrid.EngineVers.
 Import ListNotations.
 Open Scope N_scope.
 
@@ -51,6 +51,15 @@ Proof.
   - apply close_without_flush_submits_nothing; auto.
 Qed.
 Print Assumptions c12_inmem_close.
+
+(* ... along every history whatsoever (any advice for other versions of the key, any interleaving): a version inserted
+   with in-memory-only advice is never submitted, and is nowhere on the disk tier (write queue, pipeline, index, device,
+   lookups in flight) *)
+Theorem c12_inmem_never_on_disk : forall c l v,
+  In v (kinmem (krun c init_k l)) ->
+  ~ In v (ksubs (krun c init_k l)) /\ ~ In v (dvers (krun c init_k l)).
+Proof. exact inmem_never_on_disk. Qed.
+Print Assumptions c12_inmem_never_on_disk.
 
 (* on-disk advice: not retained in memory, written if admitted *)
 Theorem c12_ondisk_not_retained : forall c s, kmem (do_insert c s LOnDisk) = None.
